@@ -46,9 +46,9 @@ def edit1_count(n, ntok):
 
 # ---- pumping family u . w^n . v ------------------------------------------------------------------
 PUMP_TOKENS = ['*', '_', '[', ']', '(', ')', '`', '<', '>', '!', '\\', 'a', ' ', '\n', '> ', '- ', '1. ', '#', '|', '~',
-               '&', '\t', '**', '](', '<a ', '"', '![', '$', '{{', '[[', '=', '+ ', ':', '-']
-PUMP_U = ['', '[', '`', '<a ', '*', '> ', '- ', '![', '<!--', '```\n', '# ', '| a |\n|---|\n']
-PUMP_V = ['', ']', '`', '>', ')', '*', '\n\n[a]: b', '](u)', '\n']
+               '&', '\t', '**', '](', '<a ', '"', '![', '$', '{{', '[[', '=', '+ ', ':', '-', '| --- ', '|---', ' | ', '--- | ']
+PUMP_U = ['', '[', '`', '<a ', '*', '> ', '- ', '![', '<!--', '```\n', '# ', '| a |\n|---|\n', 'a | b\n']
+PUMP_V = ['', ']', '`', '>', ')', '*', '\n\n[a]: b', '](u)', '\n', ' -=-\n', 'x |\n']
 
 
 def pump_words(maxlen):
